@@ -229,8 +229,20 @@ def _check_scale(ctx: Ctx, ser_terms: Dict[str, T.Term]) -> None:
                 re_t, im_t = T.from_ast(n.args[0], env), T.from_ast(n.args[1], env)
             except T.Unknown:
                 continue
-            # the two grid coordinates: whichever loop variable each part depends on (two different ones)
+            # the two grid coordinates: whichever loop variable each part depends on (two different ones); a variable that runs through
+            # `range(lo, hi, step)` itself is lo + step * position
+            from ..astutil import loop_progressions
+            progs = loop_progressions(cc)
             loop_vars = {t.id for l_ in walk_no_nested(cc.node) if isinstance(l_, ast.For) for t in ast.walk(l_.target) if isinstance(t, ast.Name)}
+            rv0 = {a[1] for a in T.atoms_of(re_t) if a[0] == 'sym' and a[1] in progs}
+            iv0 = {a[1] for a in T.atoms_of(im_t) if a[0] == 'sym' and a[1] in progs}
+            if len(rv0) == 1 and len(iv0) == 1 and rv0 != iv0:
+                sr, si = progs[next(iter(rv0))][1], progs[next(iter(iv0))][1]
+                cr = T.coefficient_of(re_t, lambda a: a == ('sym', next(iter(rv0))))
+                ci_ = T.coefficient_of(im_t, lambda a: a == ('sym', next(iter(iv0))))
+                if cr.is_const() and ci_.is_const() and abs(cr.const_value() * sr) == abs(ci_.const_value() * si) != 0:
+                    h2 = (cr.const_value() * sr / 2) ** 2
+                    continue
             rv_ = {a[1] for a in T.atoms_of(re_t) if a[0] == 'sym' and a[1] in loop_vars}
             iv_ = {a[1] for a in T.atoms_of(im_t) if a[0] == 'sym' and a[1] in loop_vars}
             if len(rv_) != 1 or len(iv_) != 1 or rv_ == iv_:
